@@ -71,13 +71,15 @@ class Setup(object):
 
     def truth(self, bands):
         idx = list(bands)
+        f = self.fitter(bands)
+        # single-precision storage of the model fluxes is observed on the fitter, not assumed from the package format
+        prec = lambda lm: 3e-7 * (1 + float(np.max(np.abs(np.asarray(lm, float))))) if fitcheck.holds_float32(f) else 0.0
         if self.mode == '2d':
             logm = np.log10(self.conv[:, 0, :][:, idx])
-            return fitcheck.GridTruth(self.names, logm, self.k[idx], self.lo, self.hi)
-        f = self.fitter(bands)
+            return fitcheck.GridTruth(self.names, logm, self.k[idx], self.lo, self.hi, delta=prec(logm))
         dist = np.asarray(f.models.distances.to(u.kpc).value, float)
         logm = fitcheck.grid_logm(self.conv[:, :, idx], self.aps, self.theta[idx], dist)
-        return fitcheck.GridTruth(self.names, logm, self.k[idx], self.lo, self.hi, logd=np.log10(dist))
+        return fitcheck.GridTruth(self.names, logm, self.k[idx], self.lo, self.hi, delta=prec(logm), logd=np.log10(dist))
 
 
 def draw_photometry(rng, st, flags):
